@@ -5,6 +5,7 @@
 use super::mailbox;
 use crate::internal::left_right;
 use papaya::HashMap;
+use parking_lot::Mutex;
 use std::fmt;
 use std::hash::Hash;
 #[cfg(not(excsn_fibre_verif))]
@@ -49,6 +50,16 @@ where
 {
   pub(crate) subscriptions: HashMap<K, Arc<SubscriberList<K, T>>>,
   pub(crate) receiver_count: AtomicUsize,
+  /// Number of live sender handles (the original and its clones).
+  pub(crate) sender_count: AtomicUsize,
+  /// Every receiver's mailbox, whatever it is subscribed to, so that all of them can be
+  /// disconnected when the last sender handle goes away.
+  mailboxes: Mutex<MailboxRegistry<K, T>>,
+}
+
+struct MailboxRegistry<K, T> {
+  list: Vec<Weak<mailbox::MailboxProducer<(K, T)>>>,
+  senders_gone: bool,
 }
 
 impl<K, T> fmt::Debug for SpmcTopicDispatcher<K, T>
@@ -80,6 +91,37 @@ where
     Self {
       subscriptions: HashMap::new(),
       receiver_count: AtomicUsize::new(0),
+      sender_count: AtomicUsize::new(1),
+      mailboxes: Mutex::new(MailboxRegistry {
+        list: Vec::new(),
+        senders_gone: false,
+      }),
+    }
+  }
+
+  /// Registers a receiver's mailbox. A mailbox created after the last sender handle went away
+  /// is disconnected at once.
+  pub(crate) fn register_mailbox(&self, mailbox: &Arc<mailbox::MailboxProducer<(K, T)>>) {
+    let mut reg = self.mailboxes.lock();
+    reg.list.retain(|w| w.upgrade().is_some());
+    reg.list.push(Arc::downgrade(mailbox));
+    if reg.senders_gone {
+      mailbox.disconnect();
+    }
+  }
+
+  /// One sender handle was closed or dropped. Only when it was the last one do the receivers
+  /// become disconnected - all of them, subscribed to something or not.
+  pub(crate) fn sender_gone(&self) {
+    if self.sender_count.fetch_sub(1, Ordering::AcqRel) != 1 {
+      return;
+    }
+    let mut reg = self.mailboxes.lock();
+    reg.senders_gone = true;
+    for mailbox_weak in reg.list.iter() {
+      if let Some(mailbox_strong) = mailbox_weak.upgrade() {
+        mailbox_strong.disconnect();
+      }
     }
   }
 }
